@@ -102,6 +102,12 @@ class JSONPathRecursiveDescentSegment(JSONPathSegment):
         depth: int = 1,
     ) -> Iterable[JSONPathNode]:
         """Nondeterministic node traversal."""
+        # Enforce the recursion limit exactly as the deterministic traversal
+        # does, and before visiting anything. A randomized walk only gets deep
+        # slowly, so it might otherwise never terminate on recursive data.
+        for _ in self._visit(root, depth):
+            pass
+
         # (node, depth) tuples
         queue: Deque[Tuple[JSONPathNode, int]] = deque()
 
@@ -114,11 +120,6 @@ class JSONPathRecursiveDescentSegment(JSONPathSegment):
         while queue:
             node, depth = queue.popleft()
             yield node
-
-            if depth >= self.env.max_recursion_depth:
-                raise JSONPathRecursionError(
-                    "recursion limit exceeded", token=self.token
-                )
 
             # Randomly choose to visit child nodes now or queue them for later?
             visit_children = random.choice([True, False])  # noqa: S311
